@@ -1,7 +1,7 @@
 (* C16 — readers accept every container that is valid by the published format layouts. *)
 From Coq Require Import List NArith ZArith Lia.
 From VT Require Import Base.Outcome Gen.Constants Model.BBox Proofs.BBoxProofs Model.MVT Model.TileId Proofs.TileIdProofs
-  Model.PMDir Proofs.PMDirProofs Model.VTFormat Proofs.VTFormatProofs.
+  Model.PMDir Proofs.PMDirProofs Model.VTFormat Proofs.VTFormatProofs Model.Naming Proofs.NamingProofs.
 Import ListNotations.
 
 Lemma C16_gen_index_variant : bbox_index_variant = 1%N.  Proof. reflexivity. Qed.
@@ -83,6 +83,13 @@ Theorem C16_lookup_step :
     pm_lookup pm_arith_variant (S d) leaf dir t = pm_lookup pm_arith_variant d leaf dir' t.
 Proof. exact (pm_lookup_step pm_arith_variant). Qed.
 Print Assumptions C16_lookup_step.
+
+(* tar members with or without the './' prefix *)
+Theorem C16_member_names_any_prefix :
+  forall dot z x y f c, (z <= 31)%N -> (x <= 4294967295)%N -> (y <= 4294967295)%N -> (f < 10)%N -> (c <= 2)%N ->
+    parse_member (render_member dot z x y f c) = Some (z, x, y, f, c).
+Proof. exact member_roundtrip. Qed.
+Print Assumptions C16_member_names_any_prefix.
 
 (* non-vacuity: a directory with a run, a leaf pointer and a gap *)
 Example C16_example :
